@@ -57,8 +57,9 @@ HARNESSES = {
     'kb_frag_accept': {'kind': 'bounded', 'domain': '3 writes, all u64 DTS, public API only', 'timeout': 900, 'tier': 'quick'},
     'kb_frag_flush_ref': {'kind': 'bounded', 'domain': 'write, write, flush, write with all u64 DTS, public API only, segment serialiser stubbed', 'timeout': 900, 'tier': 'quick'},
     'kb_finalize_tiling': {'kind': 'bounded', 'domain': 'video-only VP9 writer: one rejected call, then 1 keyframe at any u64 time, both layouts; movie-header builder stubbed', 'timeout': 1200, 'tier': 'quick'},
-    'kb_write_counted_retries': {'kind': 'bounded', 'domain': '3-byte buffer, every schedule of up to 5 Interrupted / one-byte / full write results', 'timeout': 900, 'tier': 'quick'},
+    'kb_write_counted_retries': {'kind': 'bounded', 'domain': '3-byte buffer, every schedule of up to 4 Interrupted / one-byte / full / failing write results', 'timeout': 900, 'tier': 'quick'},
     'kb_parsers_vp9_opus_small': {'kind': 'bounded', 'domain': 'every input of at most 8 bytes: extract_vp9_config, is_vp9_keyframe, is_valid_vp9_frame, is_valid_opus_packet, opus_packet_samples (panic freedom)', 'timeout': 1200, 'tier': 'quick'},
+    'kb_moov_next_track_id': {'kind': 'bounded', 'domain': 'build_moov_box on empty sample tables, VP9 video, with / without an Opus audio track', 'timeout': 1200, 'tier': 'quick'},
     'kb_is_keyframe_h264': {'kind': 'bounded', 'domain': 'frames of 1..6 symbolic bytes, H.264 probe vs independent IDR scan', 'timeout': 900, 'tier': 'quick'},
     'kb_is_keyframe_h265': {'kind': 'bounded', 'domain': 'frames of 1..6 symbolic bytes, H.265 probe vs independent IDR/CRA scan', 'timeout': 900, 'tier': 'quick'},
     'kb_is_keyframe_av1_vp9': {'kind': 'bounded', 'domain': 'frames of 1..6 symbolic bytes, AV1 / VP9 probes (panic freedom)', 'timeout': 900, 'tier': 'quick'},
